@@ -17,7 +17,7 @@ out.append("`tools/regress_parallel.py --lanes N --benign` applies each change i
 out.append("itself), runs `./check <property> --tier quick` of a copy of this tree against it, and throws the worktree away.")
 out.append("CAUGHT = exit 1 with a VIOLATION line; MISSED = exit 0. Expected MISSED: the negative control `M18a` (a harmless")
 out.append("change) and every line of the benign patches (behaviour-preserving refactorings run through all twenty checks).\n")
-out.append("%d changes (seeded rounds 1-6, reverse patches of the three repaired defects, own mutants): %d CAUGHT, %d not." % (len(seeds), caught, len(seeds) - caught))
+out.append("%d changes (seeded rounds 1-7, reverse patches of the three repaired defects, own mutants): %d CAUGHT, %d not." % (len(seeds), caught, len(seeds) - caught))
 notc = [k[0] for k, v in seeds if v[0] != "CAUGHT"]
 out.append("Not caught: %s.\n" % (", ".join(notc) if notc else "none"))
 alarms = [(k, v) for k, v in benign if v[0] != "MISSED"]
